@@ -170,6 +170,29 @@ func genPrioOps(r *rng, maxIdle int) string {
 func init() {
 	register("prio", "C20: operation sequences against the real priority write scheduler (tree, sibling order, throttling, retention lists)", func(c *ctx) {
 		c.deferred = true
+		// DEEP dependency chains (every node has one child, so sibling sorting plays no part): k open streams, each made
+		// dependent on the previous one, then the FIRST made dependent on the LAST (RFC 7540 5.3.3: the cycle must be broken
+		// by moving the last one up first), a frame queued on every stream, and enough Pops to drain them all
+		for _, ke := range [][2]int{{12, 0}, {101, 0}, {102, 0}, {103, 1}, {130, 1}, {249, 0}} {
+			k, excl := ke[0], ke[1]
+			var ops []string
+			for j := 0; j < k; j++ {
+				ops = append(ops, fmt.Sprintf("o%d", 1+2*j), fmt.Sprintf("w%d.16384", 1+2*j))
+				if j > 0 {
+					ops = append(ops, fmt.Sprintf("a%d.%d.15.0", 1+2*j, 2*j-1))
+				}
+			}
+			ops = append(ops, fmt.Sprintf("a1.%d.15.%d", 2*k-1, excl))
+			for j := 0; j < k; j++ {
+				ops = append(ops, fmt.Sprintf("ph%d", 1+2*j))
+			}
+			for j := 0; j < k+4; j++ {
+				ops = append(ops, "x")
+			}
+			c.tag("deep-dependency-chain")
+			c.op(fmt.Sprintf("sched kind=prio:10:10:0 ops=%s", strings.Join(ops, ";")))
+			c.op(fmt.Sprintf("schedtrace kind=prio:10:10:0 ops=%s", strings.Join(ops, ";")))
+		}
 		for i := 0; i < c.count; i++ {
 			r := c.rng.fork()
 			maxIdle := []int{0, 1, 2, 4, 10}[r.intn(5)]
